@@ -471,7 +471,15 @@ func c47RoundTrip(w *vx.W, x c47RT) {
 		return fmt.Sprintf("resource %s, request %s", x.Res, c47Body([]c47Instr{in}, x.Spelling))
 	}
 	var sentProp c47Prop
-	trig := func(xml.Name) string { return c47ValueClass(sentProp) + "/" + c47NSClass(x.NS) }
+	// Abstract situation for signatures: the class of the value; the class of the
+	// property's namespace only for values that hold elements (how an element is
+	// written back depends on the namespace context, text does not).
+	trig := func(xml.Name) string {
+		if sentProp.Elem {
+			return c47ValueClass(sentProp) + "/" + c47NSClass(x.NS)
+		}
+		return c47ValueClass(sentProp)
+	}
 	if g, err := c47Parse(c47Body([]c47Instr{in}, x.Spelling)); err == nil && len(g) == 1 && len(g[0].Props) == 1 {
 		sentProp = g[0].Props[0]
 	} else {
@@ -512,7 +520,7 @@ func c47RoundTrip(w *vx.W, x c47RT) {
 	if len(model) != 0 {
 		panic("c47: model not empty after remove")
 	}
-	if !c47Compare(w, s, model, []xml.Name{n}, "C47/remove", trig, ctx2) {
+	if !c47Compare(w, s, model, []xml.Name{n}, "C47/remove", func(xml.Name) string { return "after-remove" }, ctx2) {
 		return
 	}
 	w.Outcome("removed")
